@@ -10,6 +10,7 @@ import (
 	"sort"
 	"strings"
 
+	"verifsim/internal/model"
 	"verifsim/internal/rng"
 )
 
@@ -910,6 +911,9 @@ func (f *File) Tokens(only []int) []string {
 
 // Join renders lexemes with seeded layout (style 1 = single spaces / newlines between items).
 func Join(toks []string, style int, next func() uint64) string {
+	if style >= 3 {
+		return model.TightJoin(toks, style == 4, next)
+	}
 	var sb strings.Builder
 	for i, t := range toks {
 		if i > 0 {
